@@ -431,3 +431,50 @@ func VfCrashVersionedWriters() {
 		zzvf.Assert(g.ETag != nil && *g.ETag == vfQuotedMD5(oldBody), "previous-version-etag-intact-after-crash")
 	}
 }
+
+// VfInterleaveDeleteByID: C05 – in a versioning-enabled bucket the key holds V1 "O" and V2 (symbolic byte); a DeleteObject of
+// versionId=V2 (which re-exposes V1) and a GET of the key run concurrently, one of them entirely at one file-system step of
+// the other. The GET returns complete V2 or complete V1 (bytes, length and ETag of one version), never "missing"; a read
+// after the acknowledged delete sees V1.
+func VfInterleaveDeleteByID() {
+	vfWorld()
+	zzvfos.M.OTmpfile = zzvf.Choice("otmpfile_supported", 2) == 1
+	cfg := vfConfig{versioning: true}
+	p := vfNewPosix(cfg)
+	q := vfNewPosix(cfg)
+	vfMustBucket(p, "bkt")
+	zzvf.Assert(p.PutBucketVersioning(vfCtx(), "bkt", types.BucketVersioningStatusEnabled) == nil, "setup-enable-versioning")
+	key := "k"
+	one := int64(1)
+	oldBody := []byte("O")
+	newBody := zzvf.BytesN("second_body", 1)
+	_, err := p.PutObject(vfCtx(), s3response.PutObjectInput{Bucket: vfStr("bkt"), Key: &key, Body: bytes.NewReader(oldBody), ContentLength: &one})
+	zzvf.Assert(err == nil, "setup-first-version")
+	out, err := p.PutObject(vfCtx(), s3response.PutObjectInput{Bucket: vfStr("bkt"), Key: &key, Body: bytes.NewReader(newBody), ContentLength: &one})
+	zzvf.Assert(err == nil, "setup-second-version")
+	v2 := out.VersionID
+	var wErr error
+	var rPresent, rCoherent bool
+	var rData []byte
+	var rETag string
+	writer := func() { _, wErr = q.DeleteObject(vfCtx(), &s3.DeleteObjectInput{Bucket: vfStr("bkt"), Key: &key, VersionId: &v2}) }
+	reader := func() { rPresent, rData, rETag, rCoherent = vfKeyState(p, key) }
+	var fired bool
+	if zzvf.Choice("reader_inside_writer", 2) == 1 {
+		fired = vfNestAt(80, reader, writer)
+	} else {
+		fired = vfNestAt(40, writer, reader)
+	}
+	zzvf.Assume(fired)
+	zzvf.Reach("interleaved")
+	zzvf.Assert(wErr == nil, "writer-succeeds")
+	zzvf.Assert(rPresent, "key-with-a-live-version-never-reads-as-missing")
+	if rPresent {
+		zzvf.Assert(rCoherent, "get-length-matches-body")
+		isV1 := zzvf.And(zzvf.BytesEq(rData, oldBody), rETag == vfQuotedMD5(oldBody))
+		isV2 := zzvf.And(zzvf.BytesEq(rData, newBody), rETag == vfQuotedMD5(newBody))
+		zzvf.Assert(zzvf.Or(isV1, isV2), "get-returns-one-complete-version")
+	}
+	present, data, etag, _ := vfKeyState(p, key)
+	zzvf.Assert(zzvf.And(present, zzvf.BytesEq(data, oldBody), etag == vfQuotedMD5(oldBody)), "read-after-acknowledged-delete-by-id-sees-the-previous-version")
+}
